@@ -8800,9 +8800,18 @@ void SoPlexBase<R>::_syncLPRational(bool time)
    if(time)
       _statistics->syncTime->start();
 
-   // copy LP
+   // copy LP; a persistently scaled floating-point LP must be copied in its unscaled form
    _ensureRationalLP();
-   *_rationalLP = *_realLP;
+
+   if(_realLP->isScaled())
+   {
+      SPxLPBase<R> unscaledLP(*_realLP);
+      unscaledLP.unscaleLP();
+      *_rationalLP = unscaledLP;
+   }
+   else
+      *_rationalLP = *_realLP;
+
    _recomputeRangeTypesRational();
 
    // stop timing
